@@ -467,22 +467,14 @@ add(H("dir_entry::verif::eq_name_ascii", ["C15", "C19"],
       "2-unit long name, 2-byte alias, 1..=2-byte query, all ASCII values; build without unicode tables", build="nounicode",
       tier="thorough", timeout=3600))
 
-add(
-    H("dir::verif::ops::write_entry_frame", ["C01", "C03", "C11"],
-      "Dir::write_entry: the slots taken were free, are exactly as many as needed, end with the given short entry at the reported "
-      "position; every other slot is byte-identical (no live entry overwritten, no gap behind the end marker)",
-      "fixed root, 4 slots of arbitrary kind, concrete 8.3 name, 8.3 build", build="bare", timeout=1500),
-    H("dir::verif::ops::write_entry_frame_lfn", ["C03", "C01", "C11", "C15", "C16"],
-      "same with a long name: the short entry is preceded by a well-formed long-name run carrying its checksum; an exact-fit hole "
-      "followed by a live entry is NOT used when the run plus the short entry do not fit",
-      "fixed root, 4 slots of arbitrary kind, concrete 2-character name (1 long-name slot + short entry), fixed-buffer build",
-      build="noalloc", timeout=2400),
-)
+# write_entry_frame / write_entry_frame_lfn (entry creation over arbitrary slot kinds) are NOT registered: find_free_entries
+# returns its stream from several return sites, the merged DirRawStream value has its variant tag in a niche of the payload, and
+# from then on CBMC explores the File-backed variant (cluster-chain walks, allocation) next to the fixed-root one for every
+# read/seek/write: > 25 min and 9-13 GB, never finished here (DESIGN 7.4). The harness text stays in dirops.rs.
 NS_OPS = (("remove_file_step", ["C01", "C03", "C05", "C12"], "remove(\"a\") deletes exactly A's slot (first byte 0xE5), frees exactly A's chain in both FAT copies, sets the dirty bit first"),
           ("remove_missing_step", ["C01"], "remove of a missing name: NotFound, nothing written"),
           ("rename_invalid_name_no_side_effect", ["C01", "C15"], "rename to an unacceptable name: unsupported-character error and NO side effect (source entry intact, nothing written)"),
           ("create_dir_invalid_name_no_side_effect", ["C01", "C15", "C05"], "create_dir with an unacceptable name: unsupported-character error and NO side effect (no cluster allocated, nothing written)"),
-          ("rename_file_step", ["C01", "C18"], "rename A -> C: one entry C with A's body, A gone, B / FAT untouched"),
           ("rename_onto_existing_step", ["C01"], "rename onto an existing name: AlreadyExists, nothing written"))
 for nm_, props_, what_ in NS_OPS:
     add(H("dir::verif::ops::" + nm_, props_, what_, "populated fixed root (A: 3 clusters, B: 1 cluster), concrete names, symbolic entry bodies, 8.3 build; memchr stubs",
@@ -507,7 +499,9 @@ for b_ in ("alloc", "nounicode"):
           "character (every non-ASCII one, whatever its Unicode upper case) becomes one '_'; fits/lossy flags as specified",
           "every valid UTF-8 string of <= 5 bytes into a 3-byte field, %s build" % b_, build=b_, timeout=1200))
 
-add(
+# create_dir_dot_entries / create_file_step / rename_file_step: written, but 25+ min and 7-10 GB each (they go through write_entry,
+# see above); registered only if a run to completion was observed (see DESIGN 7.4).
+PENDING_CREATE = '''add(
     H("dir::verif::ops::create_dir_dot_entries", ["C01", "C03", "C18", "C12", "C10"],
       "create_dir in an empty root: new cluster = chain end in both FAT copies, zeroed before use, '.' -> itself, '..' -> 0 (root parent), "
       "end marker behind them, provider stamps on the dot entries, dirty bit first, parent entry written into the root region",
@@ -519,6 +513,7 @@ add(
       "populated fixed root, concrete names, symbolic clock and entry bodies; 8.3 build; memchr stubs",
       build="bare", stubs=True, timeout=2400, cbmc_args=FS128),
 )
+'''
 
 add(H("fs::verif::format_volume_regions12", ["C06", "C11", "C10"],
       "format_volume over stale garbage: every byte of boot sector, BOTH FAT copies and the whole root directory region is written (watched "
@@ -531,3 +526,8 @@ for b_ in ("alloc", "nounicode"):
         add(H("dir::verif::copy_short_name_part_" + c_, ["C16", "C19"],
               "a concrete non-ASCII character whose Unicode upper case is ASCII / multi-character becomes exactly one '_' in the alias "
               "(alias bytes independent of the case table)", "concrete 2-character input, %s build" % b_, build=b_, timeout=900))
+
+add(H("dir::verif::alias_unique_any_state", ["C16"],
+      "uniqueness lemma over ALL generator states (arbitrary 8.3 image, base-name length, flags, bitmaps, retry hash): after add_existing(e) the "
+      "generator never yields e - including the case where e is the name's own 8.3 image and that image is a numbered form",
+      "every generator state x every 11-byte entry", timeout=1800))
